@@ -49,7 +49,9 @@ BOUNDS = {
         "inverter, default eta with the numba inverter]): 7 grid letters (Cartesian/triangle, unperturbed, perturbed, affine) x (16 side-wise "
         "assignments U all single-face flips of all-Dir and all-Neu). Block P (periodic map): Tensor 2x2 /per-x, /per-y, "
         "Tensor 3x2 /per-xy, C(3,3) /per-y, Tensor 3x2 /per-y *1e3 x 4 K x default eta x all assignments. Block S: "
-        "scale 1e-3 / 1e3 on perturbed letters and eta = 0.25. Purity digest on every evaluation, reuse on every 4th. Block D (3-d, python "
+        "scale 1e-3 / 1e3 on perturbed letters and eta = 0.25. Purity digest on every evaluation, reuse on every 4th. Block E (2-d grids rotated into tilted planes rx45 / gen / gen2 "
+        "and translated; K in {Q K_plane Q^T, full 3x3, rotated 3x3}; fields linear in the 3-d coordinates; oracle with the "
+        "tangential gradient): C(2,2), T(2,2), perturbed and affine variants, C(3,2)~ *1e-3. Block D (3-d, python "
         "inverter, default eta, K in {diag, full}, side-wise (64) U single flips): C(2,2,2), C(2,2,2)@shear, Tensor 2x2x2 uneven, "
         "Prism(1,1;2 layers) and its affine image, Tet(1,1,1)~; C(2,2,2)@rotscale with numba."
     ),
@@ -144,6 +146,17 @@ def cases(tier):
                 _emit(out, spec, K, eta, "python", "flip1", 40)
         _emit(out, spec, "rot", 0.25, "numba", "flip1", 40)
 
+    # ---- Block E: 2-d grids embedded in a tilted plane of 3-d space (as fracture grids are), 3x3 tensors whose
+    # restriction to the plane is anisotropic and not aligned with the plane axes
+    emb = [c22(embed="gen"), t22(embed="gen"), t22(pert=[[4, [-1, 1]]], embed="rx45"), c22(affine="shear", embed="gen2"),
+           c22(pert=[[4, [1, -1]]], embed="rx45"), c22(pert=[[4, [1, -1]]], embed="gen"), c22(pert=[[4, [1, -1]]], embed="gen2"),
+           c32(pert=[[5, [1, 0]], [6, [-1, 1]]], embed="gen", scale=1e-3)]
+    for spec in emb:
+        for K in ("Qplane", "full", "rot"):
+            _emit(out, spec, K, None, "python", "flip1", 40)
+    _emit(out, c22(pert=[[4, [1, -1]]], embed="gen"), "Qplane", 0.25, "numba", "flip1", 40)
+    _emit(out, t22(embed="gen2"), "full", 0.0, "python", "all", 128)
+
     # ---- Block D: 3-d letters with non-triangular faces (4 nodes per face) and a 3-d simplex letter
     c222q = {"kind": "C", "n": [2, 2, 2]}
     for spec in (c222q, dict(c222q, affine="shear"), {"kind": "Tensor", "coords": [[0, 1, 3], [0, 2, 3], [0, 0.5, 2]]},
@@ -202,7 +215,7 @@ def run_case(case) -> Outcome:
     dim = g.dim
     nb = len(info["bfaces"])
     assert nb == G.num_boundary_faces(spec), (nb, spec)
-    K = G.k_matrix(kl, dim)
+    K = G.k_matrix_embedded(kl, spec) if spec.get("embed") else G.k_matrix(kl, dim)
     perm = G.tensor_from_matrix(K, g.num_cells)
     masks = _masks(info, dim, case["aset"])
     i, nch = case["chunk"]
@@ -216,11 +229,12 @@ def run_case(case) -> Outcome:
     symmetric_letter = (kl == "I" and spec["kind"] == "C" and not spec.get("pert") and spec.get("affine", "id") == "id"
                         and not spec.get("periodic"))
     bf = info["bfaces"]
-    fields = G.basis_fields(dim)
+    fields = G.basis_fields(3 if spec.get("embed") else dim)  # embedded: linear in the physical 3-d coordinates
+    kdim = 3 if spec.get("embed") else dim
     if info.get("periodic_pairs") is not None:
         per_axes = {int(np.argmax(np.abs(g.face_centers[:, r] - g.face_centers[:, l]))) for l, r in info["periodic_pairs"].T}  # noqa: E741
         fields = [f for f in fields if not any(f[2][a] != 0 for a in per_axes)]
-    gcls += ("/per" if spec.get("periodic") else "") + ("*" if spec.get("scale", 1.0) != 1.0 else "")
+    gcls += ("^emb" if spec.get("embed") else "") + ("/per" if spec.get("periodic") else "") + ("*" if spec.get("scale", 1.0) != 1.0 else "")
 
     for m in masks:
         is_dir = G.mask_to_dir(m, nb)
@@ -277,13 +291,13 @@ def run_case(case) -> Outcome:
         if (0 < nd < nb or spec.get("periodic")) and not symmetric_letter:
             key = (gname, kl, eta, inv, m)
         if bad is not None:
-            out.violate(bad[0], grid=gname, grid_spec=spec, K=K[:dim, :dim], K_letter=kl, eta=eta, inverter=inv,
+            out.violate(bad[0], grid=gname, grid_spec=spec, K=K[:kdim, :kdim], K_letter=kl, eta=eta, inverter=inv,
                         dirichlet_mask=m, dirichlet_faces=bf[is_dir], neumann_faces=bf[~is_dir], **bad[1])
             out.ev("VIOLATION", key)
         else:
             out.ev(f"{gcls}/{inv}/{bccls}", key)
         if not out.samples and key is not None:
-            out.samples.append({"grid": gname, "K": K[:dim, :dim].tolist(), "eta": eta, "inverter": inv,
+            out.samples.append({"grid": gname, "K": K[:kdim, :kdim].tolist(), "eta": eta, "inverter": inv,
                                 "dirichlet_faces": bf[is_dir].tolist(), "neumann_faces": bf[~is_dir].tolist(),
                                 "fields": [f[0] for f in fields], "tol_flux": tol_f})
     return out
